@@ -123,15 +123,12 @@ def oracle_c05(v):
     for t in range(v.n):
         for d in set(v.deps.get(t, [])) | set(v.setup.get(t, [])):
             rdeps.setdefault(d, set()).add(t)
+    # direct edges are enough: a dependent that is processed after the failure is itself reported failed
+    # (unmet dependency), and that report is checked against ITS dependents in turn; a setup edge only
+    # matters for a requirer that really wants to run (an up-to-date requirer never consults its setup-tasks)
     for f in failed:
-        seen, todo = set(), [f]
-        while todo:
-            x = todo.pop()
-            for y in rdeps.get(x, ()):
-                if y not in seen:
-                    seen.add(y); todo.append(y)
         pf = v.first(4, f)
-        for y in seen:
+        for y in rdeps.get(f, ()):
             ps = v.first(v.start_code, y)
             if ps is not None and ps > pf:
                 bad.append(('dependent-of-failed-executed', 'task %d started after task %d, on which it depends, had failed' % (y, f)))
